@@ -3,6 +3,7 @@ from rules.v2common import *
 from spec import classify
 
 LEVEL = 'proof'
+FIXTURES = ['F3']
 
 
 def run(ctx, R):
